@@ -36,6 +36,9 @@ def body(case, rec):
     ti, si = case["tpl"], case["sub"]
     kind, invert = case["kind"], case["invert"]
     t0, _, style = cg.corpus()[ti]
+    if rx.slow_known(t0, kind, invert):
+        rec.label("excluded:known-h2-full-its-backward")
+        return
     s_rsmi = cg.corpus()[si][0]
     r, p = s_rsmi.split(">>")
     sub0 = cg.unmapped(p if invert else r)
@@ -119,6 +122,9 @@ def body_identity(case, rec):
     ti, si, di = case["tpl"], case["sub"], case["decoy"]
     kind, invert, strategy = case["kind"], case["invert"], case["strategy"]
     t0, _, style = cg.corpus()[ti]
+    if rx.slow_known(t0, kind, invert) or rx.slow_known(cg.corpus()[di][0], kind, invert):
+        rec.label("excluded:known-h2-full-its-backward")
+        return
     s_rsmi = cg.corpus()[si][0]
     r, p = s_rsmi.split(">>")
     sub = cg.unmapped(p if invert else r)
@@ -197,6 +203,6 @@ def strat(tier):
 
 
 SUBS = [
-    Sub("metamorphic", body, strategy=strat, examples={"quick": 900, "thorough": 20000}, shards={"quick": 16, "thorough": 16}),
+    Sub("metamorphic", body, strategy=strat, examples={"quick": 1400, "thorough": 20000}, shards={"quick": 16, "thorough": 16}),
     Sub("identity_independence", body_identity, strategy=strat_identity, examples={"quick": 400, "thorough": 8000}, shards={"quick": 16, "thorough": 16}, shrink=False),
 ]
